@@ -195,15 +195,20 @@ def run(tier):
     confirmed = 0; samples = []
     for g, names in groups.items():
         sts = {n: by[n]["status"] for n in names}
-        acc = [n for n in names if sts[n] in ("ok", "diff", "undecided", "load_error")]
+        acc = [n for n in names if sts[n] in ("ok", "diff", "undecided", "load_error", "stuck")]
         rej = [n for n in names if sts[n] == "rejected"]
         if acc and rej:
             confirmed += 1
             a, r = by[acc[0]], by[rej[0]]
             fnd.report("order-dependent-acceptance:" + g, "program %s is accepted in order %s and rejected in order %s (%s)" % (g, acc[0].split("#")[1], rej[0].split("#")[1], r.get("compiler_output", "")[:200].replace("\n", " ")),
                        {"accepted/main.sy": a.get("source", ""), "rejected/main.sy": r.get("source", "")}, cmd="sylt -o a.lua accepted/main.sy ; sylt -o b.lua rejected/main.sy   # same exit status expected")
+        expect = [t for t in templates if t["name"] == names[0]][0]["expect_accept"]
+        if acc and not expect and not rej:
+            confirmed += 1
+            fnd.report("accepted-without-denotation:" + g, "program %s (cyclic initialisers / missing field: must be rejected) is accepted in every explored order" % g, {"main.sy": by[acc[0]].get("source", "")})
         for n in names:
             r = by[n]
+            if r["status"] == "stuck" and not expect: continue          # reported through the acceptance rules above
             if r["status"] == "diff":
                 for d in r["diffs"]:
                     if d.get("replayed") is True:
